@@ -13,6 +13,8 @@ def declare(c):
     c.rule('C02.R2', 'state-only handlers (units, modes, homing, G92, M206) pass the command through on every path',
            floor=7)
     c.rule('C02.R3', 'with exclusion disabled no region test succeeds', floor=1)
+    c.rule('C02.R4', 'the induction relies on the tracked position being the file position: every move with an X/Y/Z word '
+                     'advances the tracked axis and is tested against the regions before it is forwarded', floor=50)
 
 
 def in_inv_pre(f):
@@ -36,6 +38,19 @@ def path_rules(col, gcode, paths, I):
             if f.kind != 'none':
                 col.report('C02.R2', 'GcodeHandlers._handle_%s' % gcode, '%s -> %s' % (gcode, f.describe()),
                            'state-only code is not passed through unchanged',
+                           detail={'entry': p.entry, 'decisions': f.decisions()})
+        if gcode in ('G0', 'G1', 'G2', 'G3'):
+            from .pathfacts import tracking_violations
+            col.instance('C02.R4', (gcode, f.describe(), tuple(f.decisions()[-4:])))
+            for (fn, construct, msg) in tracking_violations(f, gcode, I):
+                col.report('C02.R4', fn, construct, msg + ': later decisions are taken on a stale position, so moves that '
+                           'stay clear of every region can be suppressed', detail={'entry': p.entry, 'decisions': f.decisions()})
+            moved = gcode in ('G2', 'G3') or f.valued('X') or f.valued('Y') or f.valued('Z')
+            kinds = f.elem_kinds()
+            if any('CMD' in k for k in kinds) and ('ExcludeRegionState', 'processLinearMoves') in f.calls and moved \
+                    and f.pre_enabled is not False and not f.region_tested:
+                col.report('C02.R4', 'ExcludeRegionState.processLinearMoves', '%s forwards move untested' % gcode,
+                           'a move is forwarded without its destination having been tested (and tracked)',
                            detail={'entry': p.entry, 'decisions': f.decisions()})
         if not in_inv_pre(f) or f.any_excluded:
             continue
